@@ -187,11 +187,12 @@ def _perturb(draw, v, reverse_lists=False):
 
 @st.composite
 def config_spec(draw, optimizer, max_cycles=(1, 8), pop_mults=(1, 1, 1.5, 2, 3), perturb=0.3,
-                stopping=True, min_cycles=1, reverse_lists=False):
+                stopping=True, min_cycles=1, reverse_lists=False, pop_offsets=(0, 0, 0, 0, 1, 2, 3, 5, 7)):
     params = registry.load()[optimizer]["params"]
     ps = params["population_size"]
     mult = draw(st.sampled_from(pop_mults))
-    spec = {"population_size": int(ps * mult),
+    # sizes at and above the documented scale, including ones that no group / clan / cluster count divides
+    spec = {"population_size": int(ps * mult) + draw(st.sampled_from(pop_offsets)),
             "max_cycles": draw(st.integers(max(min_cycles, max_cycles[0]), max_cycles[1]))}
     if stopping:
         spec["fitness_error"] = draw(st.one_of(st.none(), st.none(), st.just(0.0), _f(0.0, 1.0)))
